@@ -270,6 +270,7 @@ func smallInline(fn *ssa.Function) bool {
 }
 
 func runC12(c *Ctx) {
+	defer checkRegisteredClaimsWin(c, "C12.R9", "(*"+pkgJWT+".JWTClaims).ToMap", "scp", "scope", "aud", "sub", "iss", "exp")
 	defer checkGrantedBeforeMint(c, "C12.R8")
 	defer checkClientGetters(c, "C12.R7", clientGetter{"DefaultClient", "GetScopes", "Scopes", ""}, clientGetter{"DefaultClient", "GetAudience", "Audience", ""})
 	defer checkStoreLooksUp(c, "C12.R5", "GetPublicKeyScopes", 2, 3, 4)
@@ -407,7 +408,9 @@ func c12R2(c *Ctx) {
 						// confines nothing
 						v, k := p.BoolCallAt(e, "apply", func(t *Term) bool {
 							return len(t.Args) == 3 && t.Args[0].IsCall(".GetScopeStrategy") && t.Args[2].Key() == a.Key() &&
-								(t.Args[1].IsCall(".GetScopes") || t.Args[1].Mentions(func(s *Term) bool { return s.IsCall(".GetPublicKeyScopes") || s.Op == "icall" && strings.HasPrefix(s.Name, ".GetPublicKeyScopes") }))
+								(t.Args[1].IsCall(".GetScopes") || t.Args[1].Mentions(func(s *Term) bool {
+									return s.IsCall(".GetPublicKeyScopes") || s.Op == "icall" && strings.HasPrefix(s.Name, ".GetPublicKeyScopes")
+								}))
 						})
 						good = k && v
 					}
